@@ -233,9 +233,13 @@ func runC05(res *Result, d *Driver, tier string, seed uint64) {
 		}
 		key := impl + " " + strings.Join(encs, ",")
 		res.Case(key, nontrivial, impl)
-		if strings.HasPrefix(model, "model-split") || strings.HasPrefix(model, "gen-error") || model == "launch-fails" {
-			res.Mismatch(Mismatch{Kind: "differential", What: "regenerated mount sequence vs hand skeleton opsFor / model run", Input: key, Model: model, Oracle: "unknown"})
+		if model == "launch-fails" {
+			res.Mismatch(Mismatch{Kind: "differential", What: "the model says this table cannot be mounted", Input: key, Model: model, Oracle: "unknown"})
 			continue
+		}
+		if !strings.HasPrefix(model, "split=0 ") {
+			// the regenerated code no longer produces the skeleton's sequence: report it and go on to look for a concrete failing run
+			res.Mismatch(Mismatch{Kind: "differential", What: "regenerated mount sequence vs hand skeleton opsFor (C05_gen_raw_matches / C05_gen_container_matches)", Input: key, Model: strings.Fields(model)[0], Oracle: "unknown"})
 		}
 		var mMounts []string
 		mW := ""
